@@ -151,12 +151,15 @@ MANIFEST = {
              "distinct, consumed only by the requester and never by two consumers; k-th item goes to the k-th received request; an item is in flight only to a "
              "consumer waiting at c2; type safety. shcounter (complete, cntr atomic by assumption = C11): cntr counts the nodes past update, never decreases, never "
              "exceeds NUM_NODES, equals NUM_NODES once a node finished and stays, bounded progress. gcounter (complete): StrongConvergence, equal knowledge => equal "
-             "reads, every counter component and the read value monotone, read <= NUM_NODES, assertion free. loadbalancer (_partial): BuffersOk, assertion/type freedom, "
-             "message well-formedness proved; 'every request answered by exactly one server' modelled with ghost history and checked by oracle + tie, proof open. "
+             "reads, every counter component and the read value monotone, read <= NUM_NODES, assertion free. loadbalancer (complete): BuffersOk, assertion/type freedom, "
+             "message well-formedness, and 'every request is answered by exactly one server' (ghost history of pages sent: request keys pairwise distinct, every issued "
+             "request except a not-yet-answered current one has exactly one answering server; location invariant: a waiting client's request sits in exactly one place). "
+             "shopcart (complete for the instance the spec declares, ANodeBench + AWORSet): StrongConvergence, QueryOK, equal knowledge => equal query, add clocks monotone, "
+             "remove maps stay Null, no ill-typed step. "
              "proxy (_partial): ProxyOK under the perfect failure detector and NUM_SERVERS < 100, FAIL reported only if all servers stopped, FD accuracy proved; "
-             "assertion freedom open (oracle only). shopcart, nestedcrdtimpl, replicatedkv and the *.gotests programs: NOT covered yet. Tie: the generated archetypes "
+             "assertion freedom open (oracle only). nestedcrdtimpl, replicatedkv and the *.gotests programs: NOT covered yet. Tie: the generated archetypes "
              "run under the real Run loop one attempt at a time over spec-state resources (the specs' mapping macros); each model runs the same schedule in Coq; every "
              "post-state and outcome compared; implementation-side oracles per system on the Go observations."),
-    "level_note": ("Partial as stated per system; systems not modelled are not covered. Trusted: Coq kernel; hand-written models (differential tie: 150 quick / 8300 thorough "
+    "level_note": ("Partial as stated per system; systems not modelled are not covered. Trusted: Coq kernel; hand-written models (differential tie: 175 quick / 9500 thorough "
                    "walks + corpus); spec-state resources replacing the deployment resources; gcounter's merge process is a Go transcription of the spec process."),
 }
